@@ -4,6 +4,7 @@ from . import procs
 from ..contracts import flux as CF
 
 ID = "C01"
+NATIVE_BOUNDED = (14, 60)        # native corpus: ideal processes over step-count / step-length grids (float rounding of the time grid)
 MIN_OBLIGATIONS = 300
 SERIES = ('feed_temperature', 'feed_compositions', 'permeate_composition', 'permeate_temperature', 'permeate_pressure', 'feed_mass',
           'partial_fluxes', 'permeances', 'time', 'feed_evaporation_heat', 'permeate_condensation_heat')
